@@ -1,6 +1,9 @@
 //! Sequential engines: ring search, block environment search, graph program
 //! enumeration, input enumeration.
+mod envcheck;
+mod envx;
 mod ring;
+mod subjects;
 
 use vcommon::*;
 
@@ -21,6 +24,7 @@ fn main() {
         let v: serde_json::Value = serde_json::from_str(&txt).expect("parse replay file");
         let r = match v["replay"]["engine"].as_str().unwrap_or("") {
             "ring" => ring::replay_json(&v["replay"]),
+            "envx" => env_replay(&v),
             e => Err(format!("unknown engine {e:?}")),
         };
         match r {
@@ -42,7 +46,74 @@ fn main() {
     let shard = args.get(4).map(|s| s.as_str());
     let rep = match args[1].as_str() {
         "ring" => ring::run(prop, tier, shard),
+        "env" => env_run(prop, tier, shard),
         _ => usage(),
     };
     rep.emit();
+}
+
+fn env_run(prop: &'static str, tier: &str, shard: Option<&str>) -> Report {
+    let thorough = tier == "thorough";
+    let mut rep = Report::new(prop, "envx");
+    rep.rule = "executions of one real block with the harness as its whole environment: every sequence of environment \
+        actions (feed k samples to an input, release k held output samples, satisfy exactly the stream the block said it \
+        waits for, do nothing) up to a horizon, each followed by work(), from several ring offsets / output fill levels, \
+        then a deterministic flush; every execution with at least one action is non-trivial and distinct by its action list"
+        .into();
+    rep.assumptions = vec![
+        "test vectors are fixed per block variant (listed in the subject id); chunking, free space and ring position are what is enumerated".into(),
+        "one-shot delivery on ample streams is the reference behaviour".into(),
+    ];
+    let (i, n) = match shard {
+        Some(s) => {
+            let (a, b) = s.split_once('/').unwrap();
+            (a.parse::<usize>().unwrap(), b.parse::<usize>().unwrap())
+        }
+        None => (0, 1),
+    };
+    let horizon = match (prop, thorough) {
+        ("C12", false) => 3,
+        ("C12", true) => 4,
+        (_, false) => 4,
+        (_, true) => 5,
+    };
+    let cfg = envcheck::EnvCfg { prop, horizon };
+    let subs = subjects::all_subjects(prop, thorough);
+    for (k, sub) in subs.iter().enumerate() {
+        if k % n != i {
+            continue;
+        }
+        if let Ok(f) = std::env::var("VERIF_SUBJECT") {
+            if !sub.id().contains(&f) {
+                continue;
+            }
+        }
+        envcheck::explore(&mut rep, sub, &cfg);
+    }
+    rep.set("horizon", serde_json::json!(horizon));
+    rep
+}
+
+fn env_replay(v: &serde_json::Value) -> Result<(), String> {
+    let want = v["replay"]["subject"].as_str().unwrap().to_string();
+    let prop = v["property"].as_str().unwrap_or("C08").to_string();
+    let prop: &'static str = Box::leak(prop.into_boxed_str());
+    let start = envx::Start::from_json(&v["replay"]["start"]);
+    let acts: Vec<envx::Act> = v["replay"]["acts"].as_array().unwrap().iter().map(envx::Act::from_json).collect();
+    for p in [prop, "C08", "C09", "C12", "C10", "C16", "C19", "C15"] {
+        for thorough in [false, true] {
+            for sub in subjects::all_subjects(p, thorough) {
+                if sub.id() == want {
+                    let mut rep = Report::new(prop, "envx");
+                    envcheck::replay_one(&mut rep, &sub, prop, &start, &acts);
+                    let sig = v["signature"].as_str().unwrap_or("");
+                    return match rep.violations.iter().find(|x| x.signature == sig).or(rep.violations.first()) {
+                        Some(x) => Err(format!("[{}] {}", x.signature, x.message)),
+                        None => Ok(()),
+                    };
+                }
+            }
+        }
+    }
+    Err(format!("machinery: subject {want} not found"))
 }
